@@ -198,6 +198,54 @@ def task_core_core_pm6(ctx):
     ctx.assume_note("shape: one pair of each kind (C-C, O-C, Si-O, C-H, N-H, O-H, Cl-H, H-H), one Gaussian per atom; math.e**x read as exp(x), x**(1/3) as the cube root; atomic numbers as positive symbols")
 
 
+def replay_atomic_number(model):
+    """real PM6 core-core energy of H-I at 1.61 A: the unpolarisable-core term must use Z = 53."""
+    import torch
+    from seqm.seqm_functions.constants import Constants
+
+    c = Constants()
+    bad = {int(z): float(c.atomic_num[z]) for z in range(1, 58) if float(c.tore[z]) > 0 and float(c.atomic_num[z]) != float(z)}
+    z53 = float(c.atomic_num[53])
+    R = 1.61
+    return {"reproduced": bool(bad), "atomic_num entries that are not the atomic number (Z <= 57, supported elements)": bad,
+            "H-I at 1.61 A: unpolarisable-core term with the table value (eV)": 1e-8 * ((z53 ** (1 / 3) + 1) / R) ** 12, "with Z = 53 (eV)": 1e-8 * ((53 ** (1 / 3) + 1) / R) ** 12}
+
+
+def task_constant_tables(ctx):
+    """Element tables of seqm_functions.constants (Z <= 57, elements with a valence charge): atomic_num[Z] = Z; valence charge
+    = s + p (+ d) electrons; the isolated-atom coefficient tables follow from the ground-state occupations (n_s, n_p) by the
+    MNDO-family rules  gss: max(n_s-1, 0), gsp: n_s n_p, hsp: -n_p, gp2: n_p(n_p-1)/2 + l(l-1)/4, gpp: -l(l-1)/4 with
+    l = min(n_p, 6-n_p)  (Dewar & Thiel 1977 / MOPAC calpar)."""
+    from seqm.seqm_functions.constants import Constants
+    from contracts.C07_differentiability import _quiet
+
+    ctx.under_contract("seqm.seqm_functions.constants:Constants.__init__")
+    c = Constants()
+    rep = []
+    n = 0
+    for z in range(1, 58):
+        if float(c.tore[z]) <= 0:
+            continue
+        n += 1
+        ns, np_ = int(c.ussc[z]), int(c.uppc[z])
+        ctx.prove("atomic_num[%d]=%d" % (z, z), S(E.frac_of_float(float(c.atomic_num[z]))) == z, replay=lambda m: (rep or rep.append(_quiet(replay_atomic_number)) or rep)[0],
+                  classify=lambda m_, r: "atomic-number-table")
+        main_group = z <= 20 or 31 <= z <= 38 or 49 <= z <= 56
+        if main_group:
+            ctx.prove("tore[%d]=n_s+n_p" % z, S(E.frac_of_float(float(c.tore[z]))) == ns + np_)
+            l = min(np_, 6 - np_)
+            ctx.prove("gssc[%d]" % z, S(E.frac_of_float(float(c.gssc[z]))) == max(ns - 1, 0))
+            ctx.prove("gspc[%d]" % z, S(E.frac_of_float(float(c.gspc[z]))) == ns * np_)
+            ctx.prove("hspc[%d]" % z, S(E.frac_of_float(float(c.hspc[z]))) == -np_)
+            ctx.prove("gp2c[%d]" % z, S(E.frac_of_float(float(c.gp2c[z]))) == Fraction(np_ * (np_ - 1), 2) + Fraction(l * (l - 1), 4))
+            ctx.prove("gppc[%d]" % z, S(E.frac_of_float(float(c.gppc[z]))) == -Fraction(l * (l - 1), 4))
+        period = 1 if z <= 2 else 2 if z <= 10 else 3 if z <= 18 else 4 if z <= 36 else 5 if z <= 54 else 6
+        ctx.prove("qn[%d]=period" % z, S(int(c.qn[z])) == period)
+    if n < 30:
+        ctx.error("vacuous", "only %d elements with a valence charge" % n)
+    ctx.assume_note("concrete table check for Z <= 57 (beyond La the table is not indexed by atomic number and those elements are rejected elsewhere)")
+
+
 def fock_inputs(padded=False):
     from contracts.es_common import batch_description
 
@@ -404,5 +452,5 @@ def task_fock_uhf(ctx):
     ctx.canary_eq("exchange-uses-same-spin", F.a[0, 0, 1, 2], F.a[0, 1, 1, 2])
 
 
-TASKS_QUICK = ["core_core_pm6", "local_frame", "core_core", "fock", "fock_uhf", "hcore_assembly"]
+TASKS_QUICK = ["constant_tables", "core_core_pm6", "local_frame", "core_core", "fock", "fock_uhf", "hcore_assembly"]
 TASKS_THOROUGH = TASKS_QUICK
